@@ -1,31 +1,1306 @@
-//! C07 — placeholder (not registered in MANIFEST until built).
+//! C07 — replay is path-independent.
+//!
+//! Scheduled parties: a client delivering honest intents to 1–2 worldlines and the scheduler
+//! passes between them (this produces a real history and the ground truth `live[w][t]`), then a
+//! seeded *op tape* of readers: playback cursors (fresh / reused, Reader / Writer, pinned at, below
+//! or beyond the frontier) that `seek_to` forward and backward and `step` under every
+//! `PlaybackMode`, checkpoint placements (live during the history through
+//! `ProvenanceService::checkpoint`, afterwards through `add_checkpoint(ReplayCheckpoint::from_state)`
+//! from replayed states and from cursor states), forks (`ProvenanceService::fork`,
+//! `WorldlineRuntime::fork_strand`) followed by the same ops on the child, and direct
+//! `replay_worldline_state_at` / `replay_worldline_state` calls with different replay bases.
+//! For histories of <= 5 ticks (start, target, checkpoint subset) triples are drawn without
+//! replacement (or enumerated completely when the space is small enough for the tier).
+//! No faults are injected.
+//!
+//! Tick numbering: cursor coordinate `t` = state after `t` commits; `t = 0` is the U0 base and
+//! `t >= 1` corresponds to `live[w][t-1]` / provenance entry `t-1`.
+//!
+//! Oracle (a) replay vs live: after every op the cursor / returned state at coordinate `t` has the
+//! abstract state, the state root and the per-tick (commit id, state root) list recorded live.
+//! Oracle (b) replay vs replay: every two replay outputs for the same (root worldline, t) have
+//! byte-identical `{:#?}` text, whatever path produced them (parent or fork child included).
+
+use std::collections::{BTreeMap, BTreeSet};
+use std::sync::atomic::{AtomicU64, Ordering};
 
 use serde::{Deserialize, Serialize};
+use warp_core::{
+    make_strand_id, ActorId, AuthorityBinding, AuthorityDomainId, AuthorityDomainRef, CausalPosture, CheckpointRef, CursorId, CursorRole,
+    ForkStrandRequest, Hash, HistoryError, InboxPolicy, OriginId, PlaybackCursor, PlaybackMode, ProvenanceEntry, ProvenanceRef,
+    ProvenanceService, ProvenanceStore, ReplayCheckpoint, RetentionContractId, RetentionPosture, SealStrength, SeekThen, SessionContext,
+    SessionId, WarpId, WorldlineId, WorldlineRuntime, WorldlineState, WorldlineTick, WriterHead,
+};
 
-use crate::kernel::{Outcome, PropertySpec, Rng, RunCtx, Scenario, Tier};
+use crate::kernel::{catch, Outcome, PropertySpec, Rng, RunCtx, Scenario, Tier};
+use crate::model::refstate::{abs, RefState};
+use crate::props::c01::knobs;
+use crate::world::ids;
+use crate::world::prog::Step;
+use crate::world::runtime::{fingerprint, gen_intent, gen_world, head_key, wl_id, Intent, LiveTick, PassResult, World, WorldSpec};
 
 pub const SPEC: PropertySpec = PropertySpec {
     id: "C07",
     level: "exploration",
-    rule: "placeholder",
-    quick_runs: 1,
-    thorough_runs: 1,
-    real_components: &[],
-    stub_components: &[],
-    assumptions: &[],
+    rule: "scenario = world (1-2 worldlines x 1-3 heads) + history tape (honest intents, 3-12 passes, thorough up to 40, live checkpoints) + op tape over that history (cursor create/seek/step in every PlaybackMode/pin change, checkpoint placement from replayed or cursor states, forks via ProvenanceService::fork and fork_strand, direct replay with fresh/live/replayed bases) + (start,target,checkpoint-subset) triples for histories <= 5 ticks; non-trivial = history >= 2 ticks and >= 2 distinct paths compared at some tick; distinct = hash of (history spec, op tape)",
+    quick_runs: 6_000,
+    thorough_runs: 40_000,
+    real_components: &[
+        "PlaybackCursor::new/seek_to/step",
+        "ProvenanceService (checkpoint, add_checkpoint, fork, replay_worldline_state_at, replay_worldline_state, checkpoint_before)",
+        "restore_replay_base / advance_replay_state / finalize_replay_metadata / validate_checkpoint_for_history",
+        "WorldlineRuntime::fork_strand",
+        "SchedulerCoordinator::super_tick + Engine (history production)",
+    ],
+    stub_components: &["application rules: data-driven interpreter", "recording ProvenanceStore wrapper (pure delegation, counts which path a seek took)"],
+    assumptions: &[
+        "cursor coordinate t = state after t commits; t = 0 is the U0 replay base",
+        "committed_ingress is deliberately not restored by replay and is not compared with live",
+        "a typed error is legitimate only for targets beyond min(pin_max_tick, history length)",
+        "WorldlineState carries no worldline id, so parent and fork-child replays of a shared prefix tick are compared as text",
+    ],
     fault_kinds: &[],
 };
 
+// ---------------------------------------------------------------------------
+// Scenario data
+// ---------------------------------------------------------------------------
+
+#[derive(Clone, Debug, Serialize, Deserialize)]
+pub enum HOp {
+    Deliver(Intent),
+    Pass,
+    /// `ProvenanceService::checkpoint` on the live frontier state of worldline `wl`
+    LiveCheckpoint { wl: u8 },
+}
+
+/// Tick selector, resolved at execution time against the lane's history length / cursor position.
+#[derive(Clone, Copy, Debug, Serialize, Deserialize, PartialEq, Eq)]
+pub enum TickSel {
+    /// raw % (len + 1)
+    Abs(u16),
+    /// cursor tick + d (floored at 0; may pass the end)
+    Rel(i8),
+    /// len + 1 + k
+    PastEnd(u8),
+    /// u64::MAX
+    Huge,
+}
+
+#[derive(Clone, Copy, Debug, Serialize, Deserialize, PartialEq, Eq)]
+pub enum BaseSel {
+    /// `WorldlineState::new(initial warp state)`
+    Fresh,
+    /// the live frontier state of the worldline (when the runtime has it)
+    Live,
+    /// a state replayed to raw % (len + 1)
+    Replayed(u16),
+}
+
+#[derive(Clone, Copy, Debug, Serialize, Deserialize, PartialEq, Eq)]
+pub enum ModeSel {
+    Paused,
+    Play,
+    StepForward,
+    StepBack,
+    Seek { to: TickSel, then_play: bool },
+}
+
+#[derive(Clone, Copy, Debug, Serialize, Deserialize, PartialEq, Eq)]
+pub enum PinSel {
+    Len,
+    Beyond(u8),
+    Below(u16),
+    Max,
+}
+
+#[derive(Clone, Copy, Debug, Serialize, Deserialize, PartialEq, Eq)]
+pub enum CpSrc {
+    Replay(BaseSel),
+    Cursor(u8),
+}
+
+#[derive(Clone, Debug, Serialize, Deserialize)]
+pub enum Op {
+    NewCursor { slot: u8, lane: u8, pin: PinSel, writer: bool, base0_replayed: bool },
+    SetPin { slot: u8, pin: PinSel },
+    Seek { slot: u8, to: TickSel, base: BaseSel },
+    /// `mode: None` keeps whatever mode the cursor is in
+    Step { slot: u8, mode: Option<ModeSel>, base: BaseSel },
+    Checkpoint { lane: u8, at: u16, src: CpSrc },
+    Fork { lane: u8, at: TickSel, strand: bool },
+    ReplayAt { lane: u8, to: TickSel, base: BaseSel },
+    ReplayFull { lane: u8, base: BaseSel },
+}
+
+/// (start, target, checkpoint subset) triples over one root worldline with a short history.
+#[derive(Clone, Debug, Serialize, Deserialize)]
+pub struct Triples {
+    pub wl: u8,
+    /// enumerate the whole space when the history is short enough for the tier
+    pub exhaustive: bool,
+    /// distinct indices into the 6 x 6 x 64 space of a 5-tick history (reduced for shorter ones)
+    pub picks: Vec<u16>,
+}
+
 #[derive(Clone, Debug, Serialize, Deserialize)]
 pub struct C07 {
-    pub placeholder: u8,
+    pub world: WorldSpec,
+    pub history: Vec<HOp>,
+    pub triples: Triples,
+    pub tape: Vec<Op>,
+}
+
+const N_SLOTS: u8 = 3;
+const MAX_CHILDREN: usize = 5;
+
+fn gen_ticksel(rng: &mut Rng) -> TickSel {
+    match rng.weighted(&[12, 5, 2, 1]) {
+        0 => TickSel::Abs(rng.below(64) as u16),
+        1 => TickSel::Rel(rng.range(0, 6) as i8 - 3),
+        2 => TickSel::PastEnd(rng.below(3) as u8),
+        _ => TickSel::Huge,
+    }
+}
+
+fn gen_base(rng: &mut Rng) -> BaseSel {
+    match rng.weighted(&[6, 2, 2]) {
+        0 => BaseSel::Fresh,
+        1 => BaseSel::Live,
+        _ => BaseSel::Replayed(rng.below(64) as u16),
+    }
+}
+
+fn gen_pin(rng: &mut Rng) -> PinSel {
+    match rng.weighted(&[8, 3, 2, 1]) {
+        0 => PinSel::Len,
+        1 => PinSel::Beyond(rng.below(3) as u8),
+        2 => PinSel::Below(rng.below(64) as u16),
+        _ => PinSel::Max,
+    }
+}
+
+fn gen_mode(rng: &mut Rng) -> ModeSel {
+    match rng.weighted(&[1, 4, 4, 4, 4]) {
+        0 => ModeSel::Paused,
+        1 => ModeSel::Play,
+        2 => ModeSel::StepForward,
+        3 => ModeSel::StepBack,
+        _ => ModeSel::Seek { to: gen_ticksel(rng), then_play: rng.chance(1, 2) },
+    }
 }
 
 impl Scenario for C07 {
-    fn generate(_rng: &mut Rng, _tier: Tier, _avoid: bool) -> Self {
-        C07 { placeholder: 0 }
+    fn generate(rng: &mut Rng, tier: Tier, avoid: bool) -> Self {
+        let world = gen_world(rng, 2, 3, 4);
+        let mut kn = knobs(rng, avoid);
+        kn.absent_16 = 0;
+        // history
+        let short = rng.chance(1, 3);
+        let n_pass = if short {
+            rng.urange(1, 4)
+        } else if tier == Tier::Thorough && rng.chance(1, 8) {
+            rng.urange(13, 40)
+        } else {
+            rng.urange(3, 12)
+        };
+        let triples_on = short || rng.chance(1, 4);
+        let triples_wl = rng.below(world.worldlines.len() as u64) as u8;
+        let mut history = Vec::new();
+        let mut nonce = 1u32;
+        // Programs are generated against the initial state; once earlier ticks deleted things, later
+        // honest programs can become inapplicable and the pass fails (the history stops there).
+        // Two thirds of the runs therefore delete never or only in the first round, so that long
+        // histories are common.
+        let delete_rounds = *rng.pick(&[0usize, 1, usize::MAX]);
+        for round in 0..n_pass {
+            let n_int = if rng.chance(1, 8) { 0 } else { rng.urange(1, 3) };
+            for _ in 0..n_int {
+                let mut intent = gen_intent(rng, &world, nonce, &kn);
+                if round >= delete_rounds {
+                    intent.prog.steps.retain(|s| !matches!(s, Step::DeleteNode { .. } | Step::DeleteEdge { .. }));
+                    if intent.prog.steps.is_empty() {
+                        intent.prog.steps.push(Step::Noop);
+                    }
+                }
+                history.push(HOp::Deliver(intent));
+                nonce += 1;
+            }
+            history.push(HOp::Pass);
+            if rng.chance(1, 5) {
+                let wl = rng.below(world.worldlines.len() as u64) as u8;
+                // the triples section needs a checkpoint-free service for its worldline
+                if !(triples_on && wl == triples_wl) {
+                    history.push(HOp::LiveCheckpoint { wl });
+                }
+            }
+        }
+        // triples
+        let mut picks: Vec<u16> = Vec::new();
+        if triples_on {
+            let want = rng.urange(4, 24);
+            let mut seen = BTreeSet::new();
+            while picks.len() < want {
+                let p = rng.below(2304) as u16;
+                if seen.insert(p) {
+                    picks.push(p);
+                }
+            }
+        }
+        let triples = Triples { wl: triples_wl, exhaustive: triples_on && rng.chance(1, 6), picks };
+        // op tape
+        let n_ops = rng.urange(6, 30);
+        let mut tape = vec![Op::NewCursor { slot: 0, lane: rng.below(4) as u8, pin: gen_pin(rng), writer: false, base0_replayed: rng.chance(1, 4) }];
+        let cp_heavy = rng.chance(1, 2);
+        let fork_heavy = rng.chance(1, 3);
+        for _ in 0..n_ops {
+            let slot = rng.below(u64::from(N_SLOTS)) as u8;
+            let lane = rng.below(8) as u8;
+            let w = [3, 1, 14, 10, if cp_heavy { 8 } else { 3 }, if fork_heavy { 4 } else { 1 }, 3, 1];
+            tape.push(match rng.weighted(&w) {
+                0 => Op::NewCursor { slot, lane, pin: gen_pin(rng), writer: rng.chance(1, 10), base0_replayed: rng.chance(1, 4) },
+                1 => Op::SetPin { slot, pin: gen_pin(rng) },
+                2 => Op::Seek { slot, to: gen_ticksel(rng), base: gen_base(rng) },
+                3 => Op::Step { slot, mode: if rng.chance(1, 5) { None } else { Some(gen_mode(rng)) }, base: gen_base(rng) },
+                4 => Op::Checkpoint { lane, at: rng.below(64) as u16, src: if rng.chance(1, 3) { CpSrc::Cursor(slot) } else { CpSrc::Replay(gen_base(rng)) } },
+                5 => Op::Fork { lane, at: if rng.chance(1, 8) { TickSel::PastEnd(rng.below(2) as u8) } else { TickSel::Abs(rng.below(64) as u16) }, strand: rng.chance(1, 3) },
+                6 => Op::ReplayAt { lane, to: gen_ticksel(rng), base: gen_base(rng) },
+                _ => Op::ReplayFull { lane, base: gen_base(rng) },
+            });
+        }
+        C07 { world, history, triples, tape }
     }
-    fn execute(&self, _ctx: &mut RunCtx) -> Outcome {
-        Outcome::Ok
+
+    fn execute(&self, ctx: &mut RunCtx) -> Outcome {
+        match self.run(ctx) {
+            Ok(()) => Outcome::Ok,
+            Err(o) => o,
+        }
+    }
+
+    fn shrink_candidates(&self) -> Vec<Self> {
+        let mut out = Vec::new();
+        // drop the triples section, then single picks
+        if !self.triples.picks.is_empty() || self.triples.exhaustive {
+            let mut s = self.clone();
+            s.triples.picks.clear();
+            s.triples.exhaustive = false;
+            out.push(s);
+        }
+        if self.triples.exhaustive {
+            let mut s = self.clone();
+            s.triples.exhaustive = false;
+            out.push(s);
+        }
+        // drop the whole tape / halves / single ops
+        if self.tape.len() > 1 {
+            let mut s = self.clone();
+            s.tape.clear();
+            out.push(s);
+            let mut s = self.clone();
+            s.tape.truncate(self.tape.len() / 2);
+            out.push(s);
+            let mut s = self.clone();
+            s.tape.drain(..self.tape.len() / 2);
+            out.push(s);
+        }
+        for i in (0..self.tape.len()).rev() {
+            let mut s = self.clone();
+            s.tape.remove(i);
+            out.push(s);
+        }
+        if self.triples.picks.len() > 1 {
+            let mut s = self.clone();
+            s.triples.picks.truncate(self.triples.picks.len() / 2);
+            out.push(s);
+            for i in 0..self.triples.picks.len() {
+                let mut s = self.clone();
+                s.triples.picks.remove(i);
+                out.push(s);
+            }
+        }
+        // shorten the history: cut after an earlier pass, drop live checkpoints, drop deliveries
+        let pass_ix: Vec<usize> = self.history.iter().enumerate().filter(|(_, h)| matches!(h, HOp::Pass)).map(|(i, _)| i).collect();
+        if pass_ix.len() > 1 {
+            let mut s = self.clone();
+            s.history.truncate(pass_ix[(pass_ix.len() - 1) / 2] + 1);
+            out.push(s);
+            let mut s = self.clone();
+            s.history.truncate(pass_ix[pass_ix.len() - 2] + 1);
+            out.push(s);
+        }
+        for i in (0..self.history.len()).rev() {
+            let mut s = self.clone();
+            s.history.remove(i);
+            out.push(s);
+        }
+        // drop the last worldline
+        if self.world.worldlines.len() > 1 {
+            let last = self.world.worldlines.len() - 1;
+            let id = self.world.worldlines[last].id;
+            let mut s = self.clone();
+            s.world.worldlines.pop();
+            s.history.retain(|h| match h {
+                HOp::Deliver(i) => i.wl() != id,
+                HOp::LiveCheckpoint { wl } => *wl != id,
+                HOp::Pass => true,
+            });
+            if s.triples.wl == id {
+                s.triples.wl = 0;
+            }
+            out.push(s);
+        }
+        // drop non-default heads that no intent addresses exactly
+        for (wi, wl) in self.world.worldlines.iter().enumerate() {
+            for (hi, h) in wl.heads.iter().enumerate() {
+                if h.default || wl.heads.len() < 2 {
+                    continue;
+                }
+                let mut s = self.clone();
+                s.world.worldlines[wi].heads.remove(hi);
+                out.push(s);
+            }
+        }
+        // simpler programs
+        for (oi, op) in self.history.iter().enumerate() {
+            if let HOp::Deliver(i) = op {
+                if i.prog.steps.len() > 1 {
+                    for si in 0..i.prog.steps.len() {
+                        let mut s = self.clone();
+                        if let HOp::Deliver(x) = &mut s.history[oi] {
+                            x.prog.steps.remove(si);
+                        }
+                        out.push(s);
+                    }
+                }
+            }
+        }
+        if self.world.workers > 1 {
+            let mut s = self.clone();
+            s.world.workers = 1;
+            out.push(s);
+        }
+        out
+    }
+}
+
+// ---------------------------------------------------------------------------
+// Recording store wrapper (pure delegation + counters)
+// ---------------------------------------------------------------------------
+
+struct Rec<'a> {
+    inner: &'a ProvenanceService,
+    entries: AtomicU64,
+    cp_some: AtomicU64,
+    cp_none: AtomicU64,
+}
+
+impl<'a> Rec<'a> {
+    fn new(inner: &'a ProvenanceService) -> Self {
+        Rec { inner, entries: AtomicU64::new(0), cp_some: AtomicU64::new(0), cp_none: AtomicU64::new(0) }
+    }
+    /// Which path the calls since construction took.
+    fn path(&self) -> &'static str {
+        if self.cp_some.load(Ordering::Relaxed) > 0 {
+            "cp"
+        } else if self.cp_none.load(Ordering::Relaxed) > 0 {
+            "u0"
+        } else if self.entries.load(Ordering::Relaxed) > 0 {
+            "fwd"
+        } else {
+            "noop"
+        }
+    }
+}
+
+impl ProvenanceStore for Rec<'_> {
+    fn u0(&self, w: WorldlineId) -> Result<WarpId, HistoryError> {
+        self.inner.u0(w)
+    }
+    fn initial_boundary_hash(&self, w: WorldlineId) -> Result<Hash, HistoryError> {
+        ProvenanceStore::initial_boundary_hash(self.inner, w)
+    }
+    fn len(&self, w: WorldlineId) -> Result<u64, HistoryError> {
+        self.inner.len(w)
+    }
+    fn entry(&self, w: WorldlineId, tick: WorldlineTick) -> Result<ProvenanceEntry, HistoryError> {
+        self.entries.fetch_add(1, Ordering::Relaxed);
+        self.inner.entry(w, tick)
+    }
+    fn parents(&self, w: WorldlineId, tick: WorldlineTick) -> Result<Vec<ProvenanceRef>, HistoryError> {
+        self.inner.parents(w, tick)
+    }
+    fn append_local_commit(&mut self, entry: ProvenanceEntry) -> Result<(), HistoryError> {
+        // read-only view: cursors never append
+        Err(HistoryError::WorldlineNotFound(entry.worldline_id))
+    }
+    fn append_recorded_event(&mut self, entry: ProvenanceEntry) -> Result<(), HistoryError> {
+        Err(HistoryError::WorldlineNotFound(entry.worldline_id))
+    }
+    fn checkpoint_before(&self, w: WorldlineId, tick: WorldlineTick) -> Option<CheckpointRef> {
+        ProvenanceStore::checkpoint_before(self.inner, w, tick)
+    }
+    fn checkpoint_state_before(&self, w: WorldlineId, tick: WorldlineTick) -> Option<ReplayCheckpoint> {
+        let r = ProvenanceStore::checkpoint_state_before(self.inner, w, tick);
+        if r.is_some() {
+            self.cp_some.fetch_add(1, Ordering::Relaxed);
+        } else {
+            self.cp_none.fetch_add(1, Ordering::Relaxed);
+        }
+        r
+    }
+}
+
+// ---------------------------------------------------------------------------
+// Oracle state
+// ---------------------------------------------------------------------------
+
+struct Root {
+    live: Vec<LiveTick>,
+    abs0: RefState,
+    root0: Hash,
+}
+
+struct Lane {
+    wl: WorldlineId,
+    root: usize,
+    len: u64,
+    /// model of the checkpoint coordinates stored for this worldline
+    cps: BTreeSet<u64>,
+    in_runtime: bool,
+    child: bool,
+}
+
+struct Seen {
+    /// digest of the compact `{:?}` text of the first replay output seen at this coordinate
+    digest: [u8; 32],
+    /// that output itself, kept so that a mismatch can be reported field by field
+    state: WorldlineState,
+    first: String,
+    labels: BTreeSet<String>,
+}
+
+/// `fmt::Write` sink hashing the Debug text without materialising it (the pretty text of a
+/// 10-tick state is ~400 kB; only its digest is needed unless two paths disagree).
+struct HashSink {
+    h: blake3::Hasher,
+    buf: [u8; 4096],
+    n: usize,
+    total: u64,
+}
+
+impl HashSink {
+    fn new() -> Self {
+        HashSink { h: blake3::Hasher::new(), buf: [0; 4096], n: 0, total: 0 }
+    }
+    fn finish(mut self) -> ([u8; 32], u64) {
+        self.h.update(&self.buf[..self.n]);
+        (*self.h.finalize().as_bytes(), self.total)
+    }
+}
+
+impl std::fmt::Write for HashSink {
+    fn write_str(&mut self, s: &str) -> std::fmt::Result {
+        let b = s.as_bytes();
+        self.total += b.len() as u64;
+        if self.n + b.len() > self.buf.len() {
+            self.h.update(&self.buf[..self.n]);
+            self.n = 0;
+            if b.len() > self.buf.len() {
+                self.h.update(b);
+                return Ok(());
+            }
+        }
+        self.buf[self.n..self.n + b.len()].copy_from_slice(b);
+        self.n += b.len();
+        Ok(())
+    }
+}
+
+fn debug_digest(st: &WorldlineState) -> ([u8; 32], u64) {
+    use std::fmt::Write as _;
+    let mut sink = HashSink::new();
+    let _ = write!(sink, "{st:?}");
+    sink.finish()
+}
+
+struct Oracle {
+    roots: Vec<Root>,
+    lanes: Vec<Lane>,
+    seen: BTreeMap<(usize, u64), Seen>,
+    multi_path: bool,
+    warps: Vec<WarpId>,
+}
+
+struct Cur {
+    cursor: PlaybackCursor,
+    lane: usize,
+}
+
+fn wt(t: u64) -> WorldlineTick {
+    WorldlineTick::from_raw(t)
+}
+
+fn hx(h: &Hash) -> String {
+    hex::encode(&h[..6])
+}
+
+fn resolve_tick(sel: TickSel, len: u64, cur: u64) -> u64 {
+    match sel {
+        TickSel::Abs(r) => u64::from(r) % (len + 1),
+        TickSel::Rel(d) => {
+            if d >= 0 {
+                cur.saturating_add(d as u64)
+            } else {
+                cur.saturating_sub(u64::from(d.unsigned_abs()))
+            }
+        }
+        TickSel::PastEnd(k) => len + 1 + u64::from(k),
+        TickSel::Huge => u64::MAX,
+    }
+}
+
+fn resolve_pin(sel: PinSel, len: u64) -> u64 {
+    match sel {
+        PinSel::Len => len,
+        PinSel::Beyond(k) => len + 1 + u64::from(k),
+        PinSel::Below(r) => u64::from(r) % (len + 1),
+        PinSel::Max => u64::MAX,
+    }
+}
+
+fn first_diff(a: &str, b: &str) -> String {
+    for (i, (x, y)) in a.lines().zip(b.lines()).enumerate() {
+        if x != y {
+            return format!("line {i}: `{}` vs `{}`", x.trim(), y.trim());
+        }
+    }
+    format!("line counts {} vs {}", a.lines().count(), b.lines().count())
+}
+
+fn retention_posture() -> Result<RetentionPosture, Outcome> {
+    let origin = OriginId::from_bytes([0x41; 32]);
+    let domain = AuthorityDomainRef::new(origin, AuthorityDomainId::from_bytes([0x51; 32]));
+    SessionContext::new(
+        SessionId([0x61; 32]),
+        origin,
+        ActorId::from_bytes([0x71; 32]),
+        domain,
+        AuthorityBinding::LocalUnbound { origin },
+        SealStrength::Advisory,
+        CausalPosture::AuthorOnly,
+        None,
+        RetentionContractId::from_bytes([0x81; 32]),
+    )
+    .and_then(|s| s.retention_posture())
+    .map_err(|e| Outcome::violation("harness:retention_posture", format!("{e:?}")))
+}
+
+impl Oracle {
+    fn expected_root(&self, root: usize, t: u64) -> Option<Hash> {
+        let r = &self.roots[root];
+        if t == 0 {
+            Some(r.root0)
+        } else {
+            r.live.get(t as usize - 1).map(|l| l.state_root)
+        }
+    }
+
+    /// Oracle (a) + (b) for one replay output claimed to be at coordinate `t` of `lane`.
+    fn check_state(&mut self, ctx: &mut RunCtx, lane: usize, t: u64, st: &WorldlineState, label: &str, compare_text: bool) -> Result<(), Outcome> {
+        let root = self.lanes[lane].root;
+        let child = self.lanes[lane].child;
+        let r = &self.roots[root];
+        let who = format!("{label} lane {lane} (root worldline #{root}{}) tick {t}", if child { ", fork child" } else { "" });
+        if t > r.live.len() as u64 {
+            return Err(Outcome::violation("replay_beyond_history", format!("{who}: history has {} ticks", r.live.len())));
+        }
+        // (a) replay vs live
+        let exp_root = if t == 0 { r.root0 } else { r.live[t as usize - 1].state_root };
+        let got_root = st.state_root();
+        if got_root != exp_root {
+            return Err(Outcome::violation("replay_vs_live:state_root", format!("{who}: state root {} live {}", hx(&got_root), hx(&exp_root))));
+        }
+        let exp_abs = if t == 0 { Some(&r.abs0) } else { r.live[t as usize - 1].abs.as_ref() };
+        if let Some(exp) = exp_abs {
+            let got = abs(st.warp_state(), &self.warps);
+            if &got != exp {
+                return Err(Outcome::violation("replay_vs_live:state", format!("{who}: abstract state differs from the live state at that tick\nreplay {got:?}\nlive   {exp:?}")));
+            }
+        }
+        if st.current_tick().as_u64() != t {
+            return Err(Outcome::violation("replay_vs_live:commit_id", format!("{who}: state carries {} committed ticks", st.current_tick().as_u64())));
+        }
+        for (i, (snap, _, _)) in st.tick_history().iter().enumerate() {
+            let l = &r.live[i];
+            if snap.hash != l.commit_hash || snap.state_root != l.state_root {
+                return Err(Outcome::violation(
+                    "replay_vs_live:commit_id",
+                    format!("{who}: tick_history[{i}] commit {} root {} live commit {} root {}", hx(&snap.hash), hx(&snap.state_root), hx(&l.commit_hash), hx(&l.state_root)),
+                ));
+            }
+        }
+        match (st.last_snapshot(), t) {
+            (None, 0) => {}
+            (Some(s), t) if t > 0 && s.hash == r.live[t as usize - 1].commit_hash => {}
+            (s, _) => {
+                return Err(Outcome::violation("replay_vs_live:commit_id", format!("{who}: last_snapshot {:?}", s.map(|s| hx(&s.hash)))));
+            }
+        }
+        // (b) replay vs replay
+        if compare_text {
+            let (digest, bytes) = debug_digest(st);
+            ctx.count("time.debug_text_bytes", bytes);
+            match self.seen.get_mut(&(root, t)) {
+                None => {
+                    let mut labels = BTreeSet::new();
+                    labels.insert(label.to_owned());
+                    self.seen.insert((root, t), Seen { digest, state: st.clone(), first: who, labels });
+                }
+                Some(seen) => {
+                    if seen.digest != digest {
+                        let (a, b) = (format!("{:#?}", seen.state), format!("{st:#?}"));
+                        let fields = fingerprint(&a).diff(&fingerprint(&b));
+                        let what = if fields.is_empty() { "debug_text".to_owned() } else { fields.join("+") };
+                        let class = if child { format!("fork_prefix_differs:{what}") } else { format!("replay_path_dependent:{what}") };
+                        return Err(Outcome::violation(class, format!("{who} differs from {}: {}", seen.first, first_diff(&a, &b))));
+                    }
+                    seen.labels.insert(label.to_owned());
+                    if seen.labels.len() >= 2 {
+                        self.multi_path = true;
+                    }
+                    ctx.hit("reach.paths_compared");
+                }
+            }
+        }
+        Ok(())
+    }
+
+    /// The store's checkpoint index agrees with the model of what was placed.
+    fn check_checkpoint_index(&self, prov: &ProvenanceService, lane: usize, class: &str) -> Result<(), Outcome> {
+        let l = &self.lanes[lane];
+        for t in 0..=l.len + 2 {
+            let got = prov.checkpoint_before(l.wl, wt(t));
+            let exp = l.cps.range(..t).next_back().copied();
+            if got.map(|c| c.worldline_tick.as_u64()) != exp {
+                return Err(Outcome::violation(class, format!("lane {lane}: checkpoint_before({t}) = {:?}, placed checkpoints {:?}", got.map(|c| c.worldline_tick.as_u64()), l.cps)));
+            }
+            if let (Some(c), Some(e)) = (got, exp) {
+                if Some(c.state_hash) != self.expected_root(l.root, e) {
+                    return Err(Outcome::violation(class, format!("lane {lane}: checkpoint at {e} carries state hash {}", hx(&c.state_hash))));
+                }
+            }
+        }
+        Ok(())
+    }
+}
+
+// ---------------------------------------------------------------------------
+// Execution
+// ---------------------------------------------------------------------------
+
+fn fresh_base(spec: &crate::world::runtime::WlSpec) -> Result<WorldlineState, Outcome> {
+    let st = spec.state.build().map_err(|e| Outcome::violation("state_construction_failed", e))?;
+    WorldlineState::new(st, spec.state.root_key()).map_err(|e| Outcome::violation("state_construction_failed", format!("{e:?}")))
+}
+
+fn mode_name(m: PlaybackMode) -> &'static str {
+    match m {
+        PlaybackMode::Paused => "paused",
+        PlaybackMode::Play => "play",
+        PlaybackMode::StepForward => "step_forward",
+        PlaybackMode::StepBack => "step_back",
+        PlaybackMode::Seek { then: SeekThen::Pause, .. } => "seek_then_pause",
+        PlaybackMode::Seek { then: SeekThen::Play, .. } => "seek_then_play",
+    }
+}
+
+struct Run<'a> {
+    oracle: Oracle,
+    fresh: Vec<WorldlineState>,
+    cursors: BTreeMap<u8, Cur>,
+    n_cursors: u8,
+    ctx: &'a mut RunCtx,
+}
+
+impl Run<'_> {
+    fn new_cursor(&mut self, prov: &ProvenanceService, slot: u8, lane: usize, pin: PinSel, writer: bool, base0_replayed: bool) -> Result<(), Outcome> {
+        let l = &self.oracle.lanes[lane];
+        let (wl, root, len) = (l.wl, l.root, l.len);
+        let replayed0 = if base0_replayed {
+            match catch(|| prov.replay_worldline_state_at(wl, &self.fresh[root], wt(0))) {
+                Ok(Ok(s)) => Some(s),
+                Ok(Err(e)) => return Err(Outcome::violation("seek_failed_on_servable_target", format!("replay_worldline_state_at(lane {lane}, 0): {e:?}"))),
+                Err(p) => return Err(Outcome::violation("cursor_panicked", format!("replay_worldline_state_at(lane {lane}, 0): {p}"))),
+            }
+        } else {
+            None
+        };
+        let base = replayed0.as_ref().unwrap_or(&self.fresh[root]);
+        self.n_cursors = self.n_cursors.wrapping_add(1);
+        let mut id = [0u8; 32];
+        id[0] = 0xC7;
+        id[1] = self.n_cursors;
+        let role = if writer { CursorRole::Writer } else { CursorRole::Reader };
+        let warp = base.root().warp_id;
+        let cursor = catch(|| PlaybackCursor::new(CursorId(id), wl, warp, role, base, wt(resolve_pin(pin, len)))).map_err(|p| Outcome::violation("cursor_panicked", format!("PlaybackCursor::new: {p}")))?;
+        let label = format!("new_cursor{}:{}", if base0_replayed { "_replayed_base" } else { "" }, if self.oracle.lanes[lane].child { "child" } else { "root" });
+        self.oracle.check_state(self.ctx, lane, cursor.current_tick().as_u64(), cursor.materialized_state(), &label, true)?;
+        self.cursors.insert(slot, Cur { cursor, lane });
+        self.ctx.hit("reach.fresh_cursor");
+        Ok(())
+    }
+
+    fn ensure_cursor(&mut self, prov: &ProvenanceService, slot: u8) -> Result<(), Outcome> {
+        if !self.cursors.contains_key(&slot) {
+            // fixed fallback rule (only reachable after shrinking): fresh reader on lane 0
+            self.new_cursor(prov, slot, 0, PinSel::Len, false, false)?;
+        }
+        Ok(())
+    }
+
+    /// Resolve a replay base. A replayed base is itself a replay output and is checked.
+    fn replayed_base(&mut self, prov: &ProvenanceService, lane: usize, sel: BaseSel) -> Result<Option<WorldlineState>, Outcome> {
+        let BaseSel::Replayed(r) = sel else { return Ok(None) };
+        let l = &self.oracle.lanes[lane];
+        let (wl, root, len, child) = (l.wl, l.root, l.len, l.child);
+        let t = u64::from(r) % (len + 1);
+        let rec = Rec::new(prov);
+        let res = catch(|| replay_at(&rec, prov, wl, &self.fresh[root], t)).map_err(|p| Outcome::violation("cursor_panicked", format!("replay_worldline_state_at(lane {lane}, {t}): {p}")))?;
+        match res {
+            Ok(s) => {
+                let label = format!("replay_at:{}:{}", rec.path(), if child { "child" } else { "root" });
+                self.oracle.check_state(self.ctx, lane, t, &s, &label, true)?;
+                Ok(Some(s))
+            }
+            Err(e) => Err(Outcome::violation("seek_failed_on_servable_target", format!("replay_worldline_state_at(lane {lane}, {t}) with fresh base: {e}"))),
+        }
+    }
+
+    fn seek_like(&mut self, prov: &ProvenanceService, runtime: &WorldlineRuntime, slot: u8, base: BaseSel, mode: Option<Option<ModeSel>>, to: TickSel, oi: usize) -> Result<(), Outcome> {
+        self.ensure_cursor(prov, slot)?;
+        let lane = self.cursors[&slot].lane;
+        let owned = self.replayed_base(prov, lane, base)?;
+        let l = &self.oracle.lanes[lane];
+        let (wl, root, len, child, in_rt) = (l.wl, l.root, l.len, l.child, l.in_runtime);
+        let base_ref: &WorldlineState = match (base, owned.as_ref()) {
+            (BaseSel::Replayed(_), Some(s)) => s,
+            (BaseSel::Live, _) if in_rt => match runtime.worldlines().get(&wl) {
+                Some(f) => f.state(),
+                None => &self.fresh[root],
+            },
+            _ => &self.fresh[root],
+        };
+        let cur = self.cursors.get_mut(&slot).ok_or_else(|| Outcome::violation("harness:cursor_missing", format!("slot {slot}")))?;
+        let before = cur.cursor.current_tick().as_u64();
+        let pin = cur.cursor.pin_max_tick.as_u64();
+        let limit = pin.min(len);
+        let rec = Rec::new(prov);
+        // what the op asks for: Some(target) = the cursor must move (or stay) there; None = documented no-op
+        let (what, target): (String, Option<u64>) = match mode {
+            None => {
+                let t = resolve_tick(to, len, before);
+                (format!("seek_to({t})"), Some(t))
+            }
+            Some(m) => {
+                if let Some(m) = m {
+                    cur.cursor.mode = match m {
+                        ModeSel::Paused => PlaybackMode::Paused,
+                        ModeSel::Play => PlaybackMode::Play,
+                        ModeSel::StepForward => PlaybackMode::StepForward,
+                        ModeSel::StepBack => PlaybackMode::StepBack,
+                        ModeSel::Seek { to, then_play } => PlaybackMode::Seek { target: wt(resolve_tick(to, len, before)), then: if then_play { SeekThen::Play } else { SeekThen::Pause } },
+                    };
+                }
+                let pm = cur.cursor.mode;
+                self.ctx.hit(&format!("reach.step_mode.{}", mode_name(pm)));
+                let reader = cur.cursor.role == CursorRole::Reader;
+                let tgt = match pm {
+                    PlaybackMode::Paused => None,
+                    PlaybackMode::Play | PlaybackMode::StepForward => {
+                        if !reader || before >= pin {
+                            None
+                        } else {
+                            Some(before + 1)
+                        }
+                    }
+                    PlaybackMode::StepBack => Some(before.saturating_sub(1)),
+                    PlaybackMode::Seek { target, .. } => Some(target.as_u64()),
+                };
+                (format!("step[{}]", mode_name(pm)), tgt)
+            }
+        };
+        let result: Result<Result<(), String>, String> = match mode {
+            None => {
+                let t = target.unwrap_or(before);
+                catch(|| cur.cursor.seek_to(wt(t), &rec, base_ref).map_err(|e| format!("{e:?}")))
+            }
+            Some(_) => catch(|| cur.cursor.step(&rec, base_ref).map(|_| ()).map_err(|e| format!("{e:?}"))),
+        };
+        self.ctx.count("time.cursor_ops", 1);
+        let after = cur.cursor.current_tick().as_u64();
+        let path = rec.path();
+        let who = format!("op#{oi} cursor {slot} lane {lane} at {before}: {what} (pin {pin}, history {len})");
+        let result = result.map_err(|p| Outcome::violation("cursor_panicked", format!("{who}: {p}")))?;
+        self.ctx.trace_str(&format!("{oi}:{what}:{before}->{after}:{path}:{}", result.is_ok()));
+        let servable = target.is_none_or(|t| t <= limit);
+        match (&result, target) {
+            (Ok(()), Some(t)) => {
+                if !servable {
+                    return Err(Outcome::violation("seek_past_end_returned_state", format!("{who}: returned Ok, cursor now at {after}")));
+                }
+                if after != t {
+                    return Err(Outcome::violation("cursor_tick_mismatch", format!("{who}: cursor reports tick {after}")));
+                }
+            }
+            (Ok(()), None) => {
+                if after != before {
+                    return Err(Outcome::violation("cursor_tick_mismatch", format!("{who}: documented no-op moved the cursor to {after}")));
+                }
+            }
+            (Err(e), _) => {
+                if servable {
+                    return Err(Outcome::violation("seek_failed_on_servable_target", format!("{who}: {e}")));
+                }
+                self.ctx.hit("reach.seek_past_end_typed_error");
+                if after != before {
+                    return Err(Outcome::violation("failed_seek_moved_cursor", format!("{who}: {e}; cursor now reports {after}")));
+                }
+            }
+        }
+        // reach probes
+        if let (Ok(()), Some(t)) = (&result, target) {
+            if t > before {
+                self.ctx.hit("reach.seek_forward");
+                if self.oracle.lanes[lane].cps.range(before + 1..t).next().is_some() {
+                    self.ctx.hit("reach.checkpoint_between_cursor_and_target");
+                }
+                if self.oracle.lanes[lane].cps.contains(&t) {
+                    self.ctx.hit("reach.checkpoint_at_target");
+                }
+                if path == "cp" {
+                    self.ctx.hit("reach.forward_seek_restored_from_checkpoint");
+                }
+            } else if t < before {
+                self.ctx.hit("reach.seek_backward");
+            } else {
+                self.ctx.hit("reach.seek_same_tick");
+            }
+            match path {
+                "cp" => self.ctx.hit("reach.restored_from_checkpoint"),
+                "u0" => self.ctx.hit("reach.restored_from_u0"),
+                "fwd" => self.ctx.hit("reach.forward_advance"),
+                _ => {}
+            }
+            if child {
+                self.ctx.hit("reach.fork_replayed");
+            }
+        }
+        let label = if result.is_ok() { format!("cursor:{path}:{}", if child { "child" } else { "root" }) } else { format!("cursor_after_error:{}", if child { "child" } else { "root" }) };
+        let cur = &self.cursors[&slot];
+        let croot = cur.cursor.current_state_root();
+        if Some(croot) != self.oracle.expected_root(root, after) {
+            return Err(Outcome::violation("replay_vs_live:state_root", format!("{who}: current_state_root() {} at reported tick {after}", hx(&croot))));
+        }
+        self.oracle.check_state(self.ctx, lane, after, cur.cursor.materialized_state(), &label, true).map_err(|o| match o {
+            Outcome::Violation { class, detail } => Outcome::Violation { class, detail: format!("{who}\n{detail}") },
+            o => o,
+        })
+    }
+
+    /// Direct `replay_worldline_state_at` (`to = Some`) or `replay_worldline_state` (`to = None`).
+    fn replay_op(&mut self, prov: &ProvenanceService, runtime: &WorldlineRuntime, lane: usize, to: Option<TickSel>, base: BaseSel, oi: usize) -> Result<(), Outcome> {
+        let full = to.is_none();
+        let owned = self.replayed_base(prov, lane, base)?;
+        let l = &self.oracle.lanes[lane];
+        let (wl, len, child) = (l.wl, l.len, l.child);
+        let t = match to {
+            None => len,
+            Some(sel) => resolve_tick(sel, len, 0),
+        };
+        let base_ref: &WorldlineState = match (base, owned.as_ref()) {
+            (BaseSel::Replayed(_), Some(s)) => s,
+            (BaseSel::Live, _) if l.in_runtime => runtime.worldlines().get(&wl).map_or(&self.fresh[l.root], |f| f.state()),
+            _ => &self.fresh[l.root],
+        };
+        let rec = Rec::new(prov);
+        let res = if full {
+            let _ = ProvenanceStore::checkpoint_state_before(&rec, wl, wt(len + 1));
+            catch(|| prov.replay_worldline_state(wl, base_ref).map_err(|e| format!("{e:?}")))
+        } else {
+            catch(|| replay_at(&rec, prov, wl, base_ref, t))
+        };
+        let res = res.map_err(|p| Outcome::violation("cursor_panicked", format!("op#{oi} replay: {p}")))?;
+        self.ctx.count("time.replay_calls", 1);
+        self.ctx.trace_str(&format!("{oi}:replay:{lane}:{t}:{}", res.is_ok()));
+        match res {
+            Ok(st) => {
+                if t > len {
+                    return Err(Outcome::violation("seek_past_end_returned_state", format!("op#{oi}: replay_worldline_state_at(lane {lane}, {t}) returned a state for a {len}-tick history")));
+                }
+                if child {
+                    self.ctx.hit("reach.fork_replayed");
+                }
+                let label = format!("{}:{}:{}", if full { "replay_full" } else { "replay_at" }, rec.path(), if child { "child" } else { "root" });
+                self.oracle.check_state(self.ctx, lane, t, &st, &label, true)
+            }
+            Err(e) => {
+                if t <= len {
+                    return Err(Outcome::violation("seek_failed_on_servable_target", format!("op#{oi}: replay_worldline_state_at(lane {lane}, {t}) base {base:?}, history {len}: {e}")));
+                }
+                self.ctx.hit("reach.seek_past_end_typed_error");
+                Ok(())
+            }
+        }
+    }
+}
+
+/// `replay_worldline_state_at` through the generic entry point cannot take a wrapper (the service
+/// method is concrete); the wrapper is only consulted to classify the path by the same lookup.
+fn replay_at(rec: &Rec<'_>, prov: &ProvenanceService, wl: WorldlineId, base: &WorldlineState, t: u64) -> Result<WorldlineState, String> {
+    // classify: same lookup the replay performs (largest checkpoint <= t)
+    let _ = ProvenanceStore::checkpoint_state_before(rec, wl, wt(t).checked_increment().unwrap_or(wt(t))).is_some();
+    prov.replay_worldline_state_at(wl, base, wt(t)).map_err(|e| format!("{e:?}"))
+}
+
+impl C07 {
+    fn run(&self, ctx: &mut RunCtx) -> Result<(), Outcome> {
+        let mut world = World::new(&self.world).map_err(|e| Outcome::violation("state_construction_failed", e))?;
+        let warps: Vec<WarpId> = (0..ids::N_WARPS).map(ids::warp).collect();
+        // tick-0 ground truth from the live runtime before anything ran
+        let mut fresh = Vec::new();
+        let mut t0 = Vec::new();
+        for wl in &self.world.worldlines {
+            fresh.push(fresh_base(wl)?);
+            let f = world.runtime.worldlines().get(&wl_id(wl.id)).ok_or_else(|| Outcome::violation("state_construction_failed", "worldline not registered"))?;
+            t0.push((abs(f.state().warp_state(), &warps), f.state().state_root()));
+        }
+        // ---- history
+        let mut live_cps: BTreeMap<u8, BTreeSet<u64>> = BTreeMap::new();
+        for (hi, h) in self.history.iter().enumerate() {
+            match h {
+                HOp::Deliver(i) => {
+                    if self.world.worldlines.iter().any(|w| w.id == i.wl()) {
+                        let _ = world.deliver(i);
+                    }
+                }
+                HOp::Pass => match world.pass() {
+                    PassResult::Ok(recs) => {
+                        ctx.trace_str(&format!("pass:{}", recs.len()));
+                    }
+                    failed => {
+                        ctx.trace_str(&format!("history stops: {failed:?}"));
+                        ctx.hit("reach.history_stopped_at_failed_pass");
+                        break;
+                    }
+                },
+                HOp::LiveCheckpoint { wl } => {
+                    let Some(f) = world.runtime.worldlines().get(&wl_id(*wl)) else { continue };
+                    let t = f.frontier_tick().as_u64();
+                    let state = f.state();
+                    match catch(|| world.provenance.checkpoint(wl_id(*wl), state)) {
+                        Ok(Ok(c)) => {
+                            if c.worldline_tick.as_u64() != t {
+                                return Err(Outcome::violation("checkpoint_rejected_valid", format!("history#{hi}: live checkpoint of worldline {wl} at frontier {t} was stored at {}", c.worldline_tick.as_u64())));
+                            }
+                            live_cps.entry(*wl).or_default().insert(t);
+                            ctx.hit("reach.live_checkpoint");
+                        }
+                        Ok(Err(e)) => return Err(Outcome::violation("checkpoint_rejected_valid", format!("history#{hi}: ProvenanceService::checkpoint(live state of worldline {wl} at tick {t}): {e:?}"))),
+                        Err(p) => return Err(Outcome::violation("cursor_panicked", format!("ProvenanceService::checkpoint: {p}"))),
+                    }
+                }
+            }
+        }
+        let World { runtime, provenance: prov, live, .. } = &mut world;
+        // ---- lanes and ground truth
+        let mut oracle = Oracle { roots: Vec::new(), lanes: Vec::new(), seen: BTreeMap::new(), multi_path: false, warps };
+        let mut total_ticks = 0u64;
+        for (i, wl) in self.world.worldlines.iter().enumerate() {
+            let lv: Vec<LiveTick> = live.get(&wl.id).cloned().unwrap_or_default();
+            let len = lv.len() as u64;
+            total_ticks += len;
+            let plen = prov.len(wl_id(wl.id)).map_err(|e| Outcome::violation("harness:provenance_len", format!("{e:?}")))?;
+            if plen != len {
+                return Err(Outcome::violation("harness:provenance_len_vs_live", format!("worldline {}: {plen} entries, {len} live ticks", wl.id)));
+            }
+            for (t, l) in lv.iter().enumerate() {
+                let e = prov.entry(wl_id(wl.id), wt(t as u64)).map_err(|e| Outcome::violation("harness:provenance_entry", format!("{e:?}")))?;
+                if e.expected.commit_hash != l.commit_hash || e.expected.state_root != l.state_root {
+                    return Err(Outcome::violation("replay_vs_live:commit_id", format!("worldline {} provenance entry {t}: commit {} root {} live commit {} root {}", wl.id, hx(&e.expected.commit_hash), hx(&e.expected.state_root), hx(&l.commit_hash), hx(&l.state_root))));
+                }
+            }
+            let (abs0, root0) = t0[i].clone();
+            oracle.roots.push(Root { live: lv, abs0, root0 });
+            oracle.lanes.push(Lane { wl: wl_id(wl.id), root: i, len, cps: live_cps.get(&wl.id).cloned().unwrap_or_default(), in_runtime: true, child: false });
+        }
+        ctx.count("time.ticks", total_ticks);
+        let max_len = oracle.lanes.iter().map(|l| l.len).max().unwrap_or(0);
+        for lane in 0..oracle.lanes.len() {
+            oracle.check_checkpoint_index(prov, lane, "checkpoint_lookup_mismatch")?;
+        }
+        let mut run = Run { oracle, fresh, cursors: BTreeMap::new(), n_cursors: 0, ctx };
+
+        // ---- triples over a checkpoint-free clone
+        self.run_triples(&mut run, prov)?;
+
+        // ---- op tape
+        let mut n_children = 0usize;
+        for (oi, op) in self.tape.iter().enumerate() {
+            let n_lanes = run.oracle.lanes.len();
+            match op {
+                Op::NewCursor { slot, lane, pin, writer, base0_replayed } => {
+                    run.new_cursor(prov, *slot, usize::from(*lane) % n_lanes, *pin, *writer, *base0_replayed)?;
+                }
+                Op::SetPin { slot, pin } => {
+                    run.ensure_cursor(prov, *slot)?;
+                    if let Some(c) = run.cursors.get_mut(slot) {
+                        let len = run.oracle.lanes[c.lane].len;
+                        // restricting below the current position is allowed by the field's contract, but then
+                        // the cursor sits beyond its own pin; keep pin >= tick so "servable" stays well-defined
+                        let p = resolve_pin(*pin, len).max(c.cursor.current_tick().as_u64());
+                        c.cursor.pin_max_tick = wt(p);
+                    }
+                }
+                Op::Seek { slot, to, base } => run.seek_like(prov, runtime, *slot, *base, None, *to, oi)?,
+                Op::Step { slot, mode, base } => run.seek_like(prov, runtime, *slot, *base, Some(*mode), TickSel::Rel(0), oi)?,
+                Op::Checkpoint { lane, at, src } => {
+                    let (lane, t, state): (usize, u64, WorldlineState) = match src {
+                        CpSrc::Cursor(slot) => {
+                            run.ensure_cursor(prov, *slot)?;
+                            let c = &run.cursors[slot];
+                            (c.lane, c.cursor.current_tick().as_u64(), c.cursor.materialized_state().clone())
+                        }
+                        CpSrc::Replay(base) => {
+                            let lane = usize::from(*lane) % n_lanes;
+                            let owned = run.replayed_base(prov, lane, *base)?;
+                            let l = &run.oracle.lanes[lane];
+                            let t = u64::from(*at) % (l.len + 1);
+                            let base_ref: &WorldlineState = match (base, owned.as_ref()) {
+                                (BaseSel::Replayed(_), Some(s)) => s,
+                                (BaseSel::Live, _) if l.in_runtime => runtime.worldlines().get(&l.wl).map_or(&run.fresh[l.root], |f| f.state()),
+                                _ => &run.fresh[l.root],
+                            };
+                            let wl = l.wl;
+                            let child = l.child;
+                            let rec = Rec::new(prov);
+                            let st = catch(|| replay_at(&rec, prov, wl, base_ref, t)).map_err(|p| Outcome::violation("cursor_panicked", format!("op#{oi} replay_worldline_state_at: {p}")))?;
+                            let st = st.map_err(|e| Outcome::violation("seek_failed_on_servable_target", format!("op#{oi} replay_worldline_state_at(lane {lane}, {t}) base {base:?}: {e}")))?;
+                            let label = format!("replay_at:{}:{}", rec.path(), if child { "child" } else { "root" });
+                            run.oracle.check_state(run.ctx, lane, t, &st, &label, true)?;
+                            (lane, t, st)
+                        }
+                    };
+                    let wl = run.oracle.lanes[lane].wl;
+                    let res = catch(|| prov.add_checkpoint(wl, ReplayCheckpoint::from_state(&state))).map_err(|p| Outcome::violation("cursor_panicked", format!("op#{oi} add_checkpoint: {p}")))?;
+                    if let Err(e) = res {
+                        return Err(Outcome::violation("checkpoint_rejected_valid", format!("op#{oi}: add_checkpoint(lane {lane}, from_state(replayed state at tick {t})) source {src:?}: {e:?}")));
+                    }
+                    run.ctx.trace_str(&format!("{oi}:checkpoint:{lane}:{t}"));
+                    run.ctx.hit("reach.checkpoint_placed");
+                    if run.cursors.values().any(|c| c.lane == lane && c.cursor.current_tick().as_u64() < t) {
+                        run.ctx.hit("reach.checkpoint_placed_ahead_of_a_cursor");
+                    }
+                    run.oracle.lanes[lane].cps.insert(t);
+                    run.oracle.check_checkpoint_index(prov, lane, "checkpoint_lookup_mismatch")?;
+                }
+                Op::Fork { lane, at, strand } => {
+                    let src = usize::from(*lane) % n_lanes;
+                    let (src_wl, src_len, src_root, src_in_rt) = {
+                        let l = &run.oracle.lanes[src];
+                        (l.wl, l.len, l.root, l.in_runtime)
+                    };
+                    // fork tick is an entry index: last included entry
+                    let f = match at {
+                        TickSel::Abs(r) if src_len > 0 => u64::from(*r) % src_len,
+                        TickSel::Abs(_) => 0,
+                        other => resolve_tick(*other, src_len, 0).saturating_sub(1).max(src_len),
+                    };
+                    let servable = f < src_len;
+                    if servable && n_children >= MAX_CHILDREN {
+                        continue;
+                    }
+                    let child_ix = 16 + n_children as u8;
+                    let child_wl = wl_id(child_ix);
+                    let via_strand = *strand && src_in_rt;
+                    let res: Result<Result<(), String>, String> = if via_strand {
+                        let posture = retention_posture()?;
+                        let req = ForkStrandRequest {
+                            strand_id: make_strand_id(&format!("verif/c07/s{child_ix}")),
+                            source_lane_id: src_wl,
+                            fork_tick: wt(f),
+                            child_worldline_id: child_wl,
+                            writer_heads: vec![WriterHead::with_routing(head_key(child_ix, 0), PlaybackMode::Play, InboxPolicy::AcceptAll, None, true)],
+                            retention_posture: posture,
+                        };
+                        catch(|| runtime.fork_strand(prov, req).map(|_| ()).map_err(|e| format!("{e:?}")))
+                    } else {
+                        catch(|| prov.fork(src_wl, wt(f), child_wl).map_err(|e| format!("{e:?}")))
+                    };
+                    let res = res.map_err(|p| Outcome::violation("cursor_panicked", format!("op#{oi} fork: {p}")))?;
+                    run.ctx.trace_str(&format!("{oi}:fork:{src}:{f}:{via_strand}:{}", res.is_ok()));
+                    match res {
+                        Err(e) => {
+                            if servable {
+                                return Err(Outcome::violation("fork_failed_on_servable_tick", format!("op#{oi}: fork of lane {src} (history {src_len}) at entry {f} via {}: {e}", if via_strand { "fork_strand" } else { "ProvenanceService::fork" })));
+                            }
+                            run.ctx.hit("reach.fork_past_end_typed_error");
+                        }
+                        Ok(()) => {
+                            if !servable {
+                                return Err(Outcome::violation("fork_past_end_accepted", format!("op#{oi}: fork of lane {src} (history {src_len}) at entry {f} succeeded")));
+                            }
+                            n_children += 1;
+                            run.ctx.hit(if via_strand { "reach.fork_strand" } else { "reach.fork_provenance" });
+                            let clen = prov.len(child_wl).map_err(|e| Outcome::violation("fork_prefix_differs:len", format!("{e:?}")))?;
+                            if clen != f + 1 {
+                                return Err(Outcome::violation("fork_prefix_differs:len", format!("op#{oi}: child of lane {src} forked at entry {f} has {clen} entries")));
+                            }
+                            for t in 0..clen {
+                                let e = prov.entry(child_wl, wt(t)).map_err(|e| Outcome::violation("fork_prefix_differs:entry", format!("{e:?}")))?;
+                                let l = &run.oracle.roots[src_root].live[t as usize];
+                                if e.expected.commit_hash != l.commit_hash || e.expected.state_root != l.state_root || e.worldline_id != child_wl || e.worldline_tick.as_u64() != t {
+                                    return Err(Outcome::violation("fork_prefix_differs:entry", format!("op#{oi}: child entry {t} commit {} root {} vs parent live commit {} root {}", hx(&e.expected.commit_hash), hx(&e.expected.state_root), hx(&l.commit_hash), hx(&l.state_root))));
+                                }
+                            }
+                            let cps: BTreeSet<u64> = run.oracle.lanes[src].cps.range(..=f + 1).copied().collect();
+                            if !cps.is_empty() {
+                                run.ctx.hit("reach.fork_copied_checkpoints");
+                            }
+                            run.oracle.lanes.push(Lane { wl: child_wl, root: src_root, len: clen, cps, in_runtime: via_strand, child: true });
+                            let child_lane = run.oracle.lanes.len() - 1;
+                            run.oracle.check_checkpoint_index(prov, child_lane, "fork_checkpoints_mismatch")?;
+                            // the parent's index is untouched
+                            run.oracle.check_checkpoint_index(prov, src, "fork_checkpoints_mismatch")?;
+                            if via_strand {
+                                let Some(fr) = runtime.worldlines().get(&child_wl) else {
+                                    return Err(Outcome::violation("fork_prefix_differs:frontier", format!("op#{oi}: fork_strand registered no child frontier")));
+                                };
+                                if fr.frontier_tick().as_u64() != clen {
+                                    return Err(Outcome::violation("fork_prefix_differs:frontier", format!("op#{oi}: child frontier tick {} for {clen} entries", fr.frontier_tick().as_u64())));
+                                }
+                                let st = fr.state().clone();
+                                run.oracle.check_state(run.ctx, child_lane, clen, &st, "fork_strand_frontier:child", true)?;
+                                run.ctx.hit("reach.fork_replayed");
+                            }
+                        }
+                    }
+                }
+                Op::ReplayAt { lane, to, base } => run.replay_op(prov, runtime, usize::from(*lane) % n_lanes, Some(*to), *base, oi)?,
+                Op::ReplayFull { lane, base } => run.replay_op(prov, runtime, usize::from(*lane) % n_lanes, None, *base, oi)?,
+            }
+        }
+        if max_len >= 2 && run.oracle.multi_path {
+            let sig = serde_json::to_vec(self).unwrap_or_default();
+            run.ctx.nontrivial(&sig);
+        }
+        Ok(())
+    }
+
+    fn run_triples(&self, run: &mut Run<'_>, prov: &ProvenanceService) -> Result<(), Outcome> {
+        if self.triples.picks.is_empty() && !self.triples.exhaustive {
+            return Ok(());
+        }
+        let Some(lane) = self.world.worldlines.iter().position(|w| w.id == self.triples.wl) else { return Ok(()) };
+        let (wl, len) = (run.oracle.lanes[lane].wl, run.oracle.lanes[lane].len);
+        if len > 5 || !run.oracle.lanes[lane].cps.is_empty() {
+            return Ok(());
+        }
+        let n = len + 1;
+        // reference states from the checkpoint-free service (U0 replay), themselves checked
+        let mut states = Vec::new();
+        for t in 0..n {
+            let st = catch(|| prov.replay_worldline_state_at(wl, &run.fresh[lane], wt(t))).map_err(|p| Outcome::violation("cursor_panicked", format!("triples: replay_worldline_state_at({t}): {p}")))?;
+            let st = st.map_err(|e| Outcome::violation("seek_failed_on_servable_target", format!("triples: replay_worldline_state_at({t}) on a {len}-tick history: {e:?}")))?;
+            run.oracle.check_state(run.ctx, lane, t, &st, "replay_at:u0:root", true)?;
+            states.push(st);
+        }
+        let exhaustive_limit = if run.ctx.tier == Tier::Thorough { 5 } else { 3 };
+        let mut by_mask: BTreeMap<u64, BTreeSet<(u64, u64)>> = BTreeMap::new();
+        if self.triples.exhaustive && len <= exhaustive_limit {
+            for mask in 0..(1u64 << n) {
+                let e = by_mask.entry(mask).or_default();
+                for s in 0..n {
+                    for t in 0..n {
+                        e.insert((s, t));
+                    }
+                }
+            }
+            run.ctx.hit("reach.triple_space_exhausted");
+        } else {
+            for p in &self.triples.picks {
+                let p = u64::from(*p);
+                let mask = (p % 64) & ((1u64 << n) - 1);
+                by_mask.entry(mask).or_default().insert(((p / 64) % 6 % n, (p / 384) % 6 % n));
+            }
+        }
+        let mut cid = 0u16;
+        for (mask, pairs) in &by_mask {
+            let mut p = prov.clone();
+            let cps: BTreeSet<u64> = (0..n).filter(|t| mask & (1 << t) != 0).collect();
+            for t in &cps {
+                let res = catch(|| p.add_checkpoint(wl, ReplayCheckpoint::from_state(&states[*t as usize]))).map_err(|e| Outcome::violation("cursor_panicked", format!("triples: add_checkpoint: {e}")))?;
+                if let Err(e) = res {
+                    return Err(Outcome::violation("checkpoint_rejected_valid", format!("triples: add_checkpoint(from_state(U0 replay at tick {t})) on a {len}-tick history: {e:?}")));
+                }
+            }
+            for (start, target) in pairs {
+                cid = cid.wrapping_add(1);
+                let mut id = [0u8; 32];
+                id[0] = 0x7C;
+                id[1..3].copy_from_slice(&cid.to_le_bytes());
+                let base = &run.fresh[lane];
+                let warp = base.root().warp_id;
+                let mut cursor = catch(|| PlaybackCursor::new(CursorId(id), wl, warp, CursorRole::Reader, base, wt(len))).map_err(|e| Outcome::violation("cursor_panicked", format!("triples: PlaybackCursor::new: {e}")))?;
+                for (leg, to) in [("start", *start), ("target", *target)] {
+                    let before = cursor.current_tick().as_u64();
+                    let rec = Rec::new(&p);
+                    let who = format!("triple (start {start}, target {target}, checkpoints {cps:?}) on a {len}-tick history, {leg} leg {before}->{to}");
+                    let res = catch(|| cursor.seek_to(wt(to), &rec, base)).map_err(|e| Outcome::violation("cursor_panicked", format!("{who}: {e}")))?;
+                    run.ctx.count("time.cursor_ops", 1);
+                    if let Err(e) = res {
+                        return Err(Outcome::violation("seek_failed_on_servable_target", format!("{who}: {e:?}")));
+                    }
+                    if cursor.current_tick().as_u64() != to {
+                        return Err(Outcome::violation("cursor_tick_mismatch", format!("{who}: cursor reports {}", cursor.current_tick().as_u64())));
+                    }
+                    let path = rec.path();
+                    if to > before {
+                        run.ctx.hit("reach.seek_forward");
+                        if cps.range(before + 1..to).next().is_some() {
+                            run.ctx.hit("reach.checkpoint_between_cursor_and_target");
+                        }
+                        if cps.contains(&to) {
+                            run.ctx.hit("reach.checkpoint_at_target");
+                        }
+                        if path == "cp" {
+                            run.ctx.hit("reach.forward_seek_restored_from_checkpoint");
+                        }
+                    } else if to < before {
+                        run.ctx.hit("reach.seek_backward");
+                    } else {
+                        run.ctx.hit("reach.seek_same_tick");
+                    }
+                    match path {
+                        "cp" => run.ctx.hit("reach.restored_from_checkpoint"),
+                        "u0" => run.ctx.hit("reach.restored_from_u0"),
+                        "fwd" => run.ctx.hit("reach.forward_advance"),
+                        _ => {}
+                    }
+                    let croot = cursor.current_state_root();
+                    if Some(croot) != run.oracle.expected_root(lane, to) {
+                        return Err(Outcome::violation("replay_vs_live:state_root", format!("{who}: current_state_root() {}", hx(&croot))));
+                    }
+                    let label = format!("cursor:{path}:root");
+                    run.oracle.check_state(run.ctx, lane, to, cursor.materialized_state(), &label, true).map_err(|o| match o {
+                        Outcome::Violation { class, detail } => Outcome::Violation { class, detail: format!("{who}\n{detail}") },
+                        o => o,
+                    })?;
+                }
+                run.ctx.count("time.triples", 1);
+                run.ctx.trace_str(&format!("triple:{mask}:{start}:{target}:{}", hx(&cursor.current_state_root())));
+            }
+        }
+        Ok(())
     }
 }
